@@ -186,4 +186,4 @@ def main():
 
 
 if __name__ == "__main__":
-    main()
+    common.run_main(main)
